@@ -53,7 +53,7 @@ def main(argv=None):
                 mod.replay(ctx, data)
         else:
             mod.run(ctx)
-            corpus = common.regression_corpus(prop)
+            corpus = [] if os.environ.get("VERIF_NO_CORPUS") else common.regression_corpus(prop)   # (switch used to measure the generators alone)
             if corpus and hasattr(mod, "replay"):
                 rule = ctx.coverage.get("rule")
                 cap = None if ctx.thorough() else getattr(mod, "CORPUS_QUICK_CAP", 60)
